@@ -160,6 +160,16 @@ G.EXT["anyj"] = {
     "emit_field": lambda f: "FAnything",
     "gen_valid": lambda rnd, f, classes, depth: E.reify(rnd.choice(ANY_VALUES)),
 }
+# the elements of a positional Array/Deque past the declared positions have no declaration: they are serialized without one
+# and read back RAW, so -- like the contents of an Anything field -- only JSON values are asked of the serializer, and only
+# those that come back as themselves (no tuple/set) are judged by the equal-instance clause
+JSON_EXTRAS = [0, 7, -1, 2.5, "", "extra", "True", False, True, [], [1, "a"], [[1, 2], []], {}, {"k": 1}, {"k": [1, {"e": ""}]}]
+
+
+def gen_json_extra(rnd):
+    return E.reify(rnd.choice(JSON_EXTRAS))
+
+
 G.EXT["date"] = {
     "field_src": lambda f: DATE_FMT[(f["k"], bool(f.get("custom")))][0],
     "gen_valid": lambda rnd, f, classes, depth: gen_date_value(rnd, f["k"]),
